@@ -119,6 +119,15 @@ func init() {
 							g.oblige("warn", "position node is a non-nil node of the analysed tree: "+site, claim, pos, nil)
 						}
 					}
+					if nodeArg < 0 && len(cc.Args) >= 2 {
+						// WarnWithPos / WarnFixableWithPos: the position is the start of a node or a recorded token position
+						okPos, why := posProvenance(c.e, cc.Args[1], map[ssa.Value]bool{}, 0)
+						o := g.oblige("warn", "explicit position is the start of a node or a token position of the tree: "+site, "true", pos, nil)
+						if !okPos {
+							o.Claim = "false"
+							o.Extra = []string{"; " + why}
+						}
+					}
 					// format constant, verbs vs arguments
 					if fmtArg < len(cc.Args) {
 						fc, isConst := cc.Args[fmtArg].(*ssa.Const)
@@ -169,6 +178,127 @@ func init() {
 		}
 		c.extraEv["warn_call_sites"] = sites
 	})
+}
+
+// posProvenance decides syntactically (on the SSA) whether a token.Pos value is known to be the start of a syntax node or
+// a token position recorded in the tree: the result of a Pos() method, a token.Pos field of a go/ast node, a field of a
+// local record whose every store holds such a value, a parameter that every static caller supplies with such a value.
+// Arithmetic on positions is not accepted: an offset into a node's text is in general not the start of a token.
+func posProvenance(e *Engine, v ssa.Value, seen map[ssa.Value]bool, depth int) (bool, string) {
+	if seen[v] {
+		return true, ""
+	}
+	seen[v] = true
+	if depth > 6 {
+		return false, "provenance of the position is too indirect to follow"
+	}
+	isPos := func(t types.Type) bool {
+		n, ok := types.Unalias(t).(*types.Named)
+		return ok && n.Obj().Pkg() != nil && n.Obj().Pkg().Path() == "go/token" && n.Obj().Name() == "Pos"
+	}
+	switch v := v.(type) {
+	case *ssa.Call:
+		cm := v.Common()
+		if cm.IsInvoke() && cm.Method.Name() == "Pos" {
+			return true, ""
+		}
+		if f := cm.StaticCallee(); f != nil && f.Name() == "Pos" && f.Signature.Recv() != nil && isPos(f.Signature.Results().At(0).Type()) {
+			return true, ""
+		}
+		return false, "position is the result of a call of " + cm.String() + ", not of a Pos() method"
+	case *ssa.ChangeType:
+		return posProvenance(e, v.X, seen, depth)
+	case *ssa.Phi:
+		for _, ed := range v.Edges {
+			if ok, why := posProvenance(e, ed, seen, depth); !ok {
+				return false, why
+			}
+		}
+		return true, ""
+	case *ssa.Field:
+		return posFieldProvenance(e, v.X.Type(), v.Field, seen, depth)
+	case *ssa.UnOp:
+		if v.Op == token.MUL {
+			if fa, ok := v.X.(*ssa.FieldAddr); ok {
+				return posFieldProvenance(e, fa.X.Type(), fa.Field, seen, depth)
+			}
+		}
+		return false, "position is loaded from " + v.X.String()
+	case *ssa.Parameter:
+		fn := v.Parent()
+		idx := -1
+		for i, p := range fn.Params {
+			if p == v {
+				idx = i
+			}
+		}
+		n := 0
+		for _, k := range e.sortedFuncKeys() {
+			for _, b := range e.funcs[k].Blocks {
+				for _, ins := range b.Instrs {
+					if call, ok := ins.(ssa.CallInstruction); ok && call.Common().StaticCallee() == fn && idx < len(call.Common().Args) {
+						n++
+						if ok, why := posProvenance(e, call.Common().Args[idx], seen, depth+1); !ok {
+							return false, "caller " + k + ": " + why
+						}
+					}
+				}
+			}
+		}
+		if n == 0 {
+			return false, "position is a parameter of " + funcKey(fn) + ", which has no static caller to justify it"
+		}
+		return true, ""
+	case *ssa.BinOp:
+		return false, "position is computed by arithmetic (" + v.String() + "): an offset is not known to be the start of a token"
+	}
+	return false, fmt.Sprintf("position comes from %T (%s)", v, v.String())
+}
+
+func posFieldProvenance(e *Engine, recv types.Type, field int, seen map[ssa.Value]bool, depth int) (bool, string) {
+	t := recv
+	if p, ok := t.Underlying().(*types.Pointer); ok {
+		t = p.Elem()
+	}
+	st, ok := t.Underlying().(*types.Struct)
+	if !ok {
+		return false, "position is a field of a non-struct"
+	}
+	if n, ok := types.Unalias(t).(*types.Named); ok && n.Obj().Pkg() != nil && n.Obj().Pkg().Path() == "go/ast" {
+		return true, "" // a token position recorded in the tree (Lparen, OpPos, Slash, ...)
+	}
+	// a record of the repository: every store to this field must hold an accepted position
+	fname := st.Field(field).Name()
+	n := 0
+	for _, k := range e.sortedFuncKeys() {
+		for _, b := range e.funcs[k].Blocks {
+			for _, ins := range b.Instrs {
+				sto, ok := ins.(*ssa.Store)
+				if !ok {
+					continue
+				}
+				fa, ok := sto.Addr.(*ssa.FieldAddr)
+				if !ok || fa.Field != field {
+					continue
+				}
+				ft := fa.X.Type()
+				if p, ok := ft.Underlying().(*types.Pointer); ok {
+					ft = p.Elem()
+				}
+				if !types.Identical(ft, t) {
+					continue
+				}
+				n++
+				if ok, why := posProvenance(e, sto.Val, seen, depth+1); !ok {
+					return false, "field " + fname + " is set in " + k + ": " + why
+				}
+			}
+		}
+	}
+	if n == 0 {
+		return false, "no store to field " + fname + " found"
+	}
+	return true, ""
 }
 
 var _ = types.Typ
